@@ -84,6 +84,7 @@ type interpreter struct {
 	inMapWrite bool
 	inSyncMap  bool
 	pcNames    map[uintptr]string
+	ownerFilter string // property id of the running check ("" for gosymx run)
 }
 
 type undoRec struct {
